@@ -1,6 +1,6 @@
 CONSTANTS
   Want = {"C17_CanaryUntouched", "C17_ScanStaysInside", "C17_SupplyCrossingFails", "C17_StageBaseCrossingFails",
-          "C17_ReceiveCrossingFails", "C17_CopyCrossingFails", "C17_TransitionCrossingFails",
+          "C17_ReceiveCrossingFails", "C17_CopyCrossingFails", "C17_TransitionCrossingFails", "C17_StagingRootNotFollowed",
           "DriverInMatrix", "DriverLinkPlaced", "DriverControlSucceeds"}
 SPECIFICATION TSpec
 CHECK_DEADLOCK FALSE
